@@ -4,7 +4,7 @@
    predicate `e`; `pred e p` is predicate_t applied to one posting (Err = the C++ throws, which
    aborts the report); `total_on e l` says that `e` evaluates without error on every posting of
    `l`.  `subseq`/`merge` are order-preserving sub-sequence and interleaving. *)
-From LedgerV Require Import Base.Prelude Gen.LimitCombine Model.Filter Model.Query Proofs.FilterProofs Proofs.QueryProofs.
+From LedgerV Require Import Base.Prelude Gen.LimitCombine Gen.QueryPrintOps Model.Filter Model.Query Proofs.FilterProofs Proofs.QueryProofs.
 From Coq Require Import Permutation.
 Local Open Scope Z_scope.
 
@@ -222,6 +222,36 @@ Proof.
   intros ext multi q l H. exists (to_expr q). split; [apply query_parse_lemma; exact H | reflexivity].
 Qed.
 Print Assumptions query_equiv_expr.
+
+(* A query is not evaluated from the tree the query parser builds: parse_query_expr prints it
+   (print_to_str -> expr_t::op_t::print) and the report parses that text again.  The writer half as
+   the translator reads it out of src/op.cc on this run: every operator of the fragment is a block
+   of its own that writes exactly the text the model's print_expr writes between the operands,
+   inside one pair of parentheses. *)
+Theorem query_print_ops_shape :
+  src_print_parenthesises = true /\
+  src_print_ops =
+    [([79;95;77;65;84;67;72], [32;61;126;32]);
+     ([79;95;69;81], [32] ++ cmp_name CEq ++ [32]);
+     ([79;95;76;84], [32] ++ cmp_name CLt ++ [32]);
+     ([79;95;76;84;69], [32] ++ cmp_name CLe ++ [32]);
+     ([79;95;71;84], [32] ++ cmp_name CGt ++ [32]);
+     ([79;95;71;84;69], [32] ++ cmp_name CGe ++ [32]);
+     ([79;95;65;78;68], [32;38;32]);
+     ([79;95;79;82], [32;124;32]);
+     ([79;95;78;79;84], [33;32])] /\
+  (forall op l r, print_expr (ECmp op l r) = [40] ++ print_expr l ++ [32] ++ cmp_name op ++ [32] ++ print_expr r ++ [41]) /\
+  (forall l pat, print_expr (EMatch l pat) = [40] ++ print_expr l ++ [32;61;126;32] ++ [47] ++ pat ++ [47;41]) /\
+  (forall l r, print_expr (EAnd l r) = [40] ++ print_expr l ++ [32;38;32] ++ print_expr r ++ [41]) /\
+  (forall l r, print_expr (EOr l r) = [40] ++ print_expr l ++ [32;124;32] ++ print_expr r ++ [41]) /\
+  (forall x, print_expr (ENot x) = [40] ++ [33;32] ++ print_expr x ++ [41]) /\
+  (* distinct comparisons are written differently, so the text determines the operator *)
+  (forall a b, cmp_name a = cmp_name b -> a = b).
+Proof.
+  repeat split; try reflexivity.
+  intros a b. destruct a, b; cbn; congruence.
+Qed.
+Print Assumptions query_print_ops_shape.
 
 (* `a b or c and d` is a | (b | (c & d)); `not a @x` is (!a) | payee x: computed by the model *)
 Example query_precedence_example :
